@@ -14,35 +14,50 @@ def sh(cmd, **kw):
 
 
 def verify(wt, sid, prop):
+    """The stored artefact is seed/patch.diff: it is applied to a scratch copy of /repo (not taken from the worktree's state)."""
     seed = os.path.join(wt, 'seed')
     out = {'id': sid, 'property': prop, 'ran': []}
-    r = sh('cd %s && PYTHONPATH=%s/src %s -m pytest -q -p no:cacheprovider -n 8 2>&1 | tail -1' % (wt, wt, PY), timeout=900)
-    out['tests_with_change'] = r.stdout.strip()
-    out['ran'].append('pytest with the change applied (PYTHONPATH=<worktree>/src)')
-    if 'failed' in r.stdout:       # wall-clock timing tests flake under load: rerun once
-        r = sh('cd %s && PYTHONPATH=%s/src %s -m pytest -q -p no:cacheprovider -n 4 2>&1 | tail -1' % (wt, wt, PY), timeout=900)
-        out['tests_with_change_rerun'] = r.stdout.strip()
-    a = sh('PYTHONPATH=%s/src %s %s/demo.py' % (wt, PY, seed), timeout=600)
-    b = sh('PYTHONPATH=/repo/src %s %s/demo.py' % (PY, seed), timeout=600)
-    out['demo_exit_with_change'] = a.returncode
-    out['demo_exit_without_change'] = b.returncode
-    out['ran'] += ['demo.py with the change (exit %d)' % a.returncode, 'demo.py on /repo/src (exit %d)' % b.returncode]
-    passed = ('passed' in (out.get('tests_with_change_rerun') or out['tests_with_change'])) and 'failed' not in (out.get('tests_with_change_rerun') or out['tests_with_change'])
-    out['confirmed'] = bool(passed and a.returncode != 0 and b.returncode == 0)
-    d = sh('git -C %s diff -- src' % wt).stdout
-    out['needs'] = ''
-    notes = os.path.join(seed, 'notes.md')
-    if os.path.exists(notes):
-        out['needs'] = open(notes).read()[:1500]
-    if out['confirmed']:
-        dst = os.path.join(ROOT, 'seeded', sid)
-        os.makedirs(dst, exist_ok=True)
-        open(os.path.join(dst, 'patch.diff'), 'w').write(d)
-        shutil.copy(os.path.join(seed, 'demo.py'), dst)
+    scratch = tempfile.mkdtemp(prefix='optyxverif-seedv-')
+    try:
+        shutil.copytree('/repo/src', os.path.join(scratch, 'src'))
+        shutil.copytree('/repo/tests', os.path.join(scratch, 'tests'))
+        for f in ('pyproject.toml',):
+            shutil.copy(os.path.join('/repo', f), scratch)
+        ap = sh('git init -q . && git apply %s' % os.path.join(seed, 'patch.diff'), cwd=scratch)
+        out['patch_applies'] = ap.returncode == 0
+        if ap.returncode != 0:
+            out['confirmed'] = False
+            out['error'] = ap.stderr[-300:]
+            return out
+        r = sh('cd %s && PYTHONPATH=%s/src %s -m pytest -q -p no:cacheprovider -n 8 2>&1 | tail -1' % (scratch, scratch, PY), timeout=900)
+        out['tests_with_change'] = r.stdout.strip()
+        out['ran'].append('pytest on a scratch copy of /repo with seed/patch.diff applied')
+        if 'failed' in r.stdout:       # wall-clock timing tests flake under load: rerun once
+            r = sh('cd %s && PYTHONPATH=%s/src %s -m pytest -q -p no:cacheprovider -n 4 2>&1 | tail -1' % (scratch, scratch, PY), timeout=900)
+            out['tests_with_change_rerun'] = r.stdout.strip()
+        a = sh('PYTHONPATH=%s/src %s %s/demo.py' % (scratch, PY, seed), timeout=900)
+        b = sh('PYTHONPATH=/repo/src %s %s/demo.py' % (PY, seed), timeout=900)
+        out['demo_exit_with_change'] = a.returncode
+        out['demo_exit_without_change'] = b.returncode
+        out['ran'] += ['demo.py with the change (exit %d)' % a.returncode, 'demo.py on /repo/src (exit %d)' % b.returncode]
+        last = out.get('tests_with_change_rerun') or out['tests_with_change']
+        passed = 'passed' in last and 'failed' not in last
+        out['confirmed'] = bool(passed and a.returncode != 0 and b.returncode == 0)
+        out['needs'] = ''
+        notes = os.path.join(seed, 'notes.md')
         if os.path.exists(notes):
-            shutil.copy(notes, dst)
-        json.dump(out, open(os.path.join(dst, 'meta.json'), 'w'), indent=1)
-    return out
+            out['needs'] = open(notes).read()[:1500]
+        if out['confirmed']:
+            dst = os.path.join(ROOT, 'seeded', sid)
+            os.makedirs(dst, exist_ok=True)
+            shutil.copy(os.path.join(seed, 'patch.diff'), dst)
+            shutil.copy(os.path.join(seed, 'demo.py'), dst)
+            if os.path.exists(notes):
+                shutil.copy(notes, dst)
+            json.dump(out, open(os.path.join(dst, 'meta.json'), 'w'), indent=1)
+        return out
+    finally:
+        shutil.rmtree(scratch, ignore_errors=True)
 
 
 def run(ids=None, tier='quick'):
